@@ -61,6 +61,10 @@ def _table_lookup(prog, f, t, enum):
             x = x[1]
         return x
     for a, b in ((body[2], body[3]), (body[3], body[2])):
+        if is_call(a) and (a[1] == "iana::EnumI64::to_i64" or a[1] == "<%s as iana::EnumI64>::to_i64" % enum) and len(a[2]) == 1 \
+                and peel(a[2][0]) == ("param", 1):
+            # `v.to_i64() == i`: to_i64 is the discriminant cast (R-2 to_i64)
+            a = ("cast", "IntToInt", ("discr", ("param", 1)), "i64")
         if a[0] == "cast" and a[1] == "IntToInt" and a[3] == "i64" and a[2][0] == "discr" and peel(a[2][1]) == ("param", 1) \
                 and peel(b)[0] == "field" and peel(b)[2] == "0" and peel(peel(b)[1]) == ("param", 0):
             return [e[2] for e in src[1]]
